@@ -5,13 +5,15 @@ import numpy as np
 
 from props import backends_common as bc
 from props import gauss_common as gc
+from props import fock_axes as fa
 from vlib import sfgen
 
 PROP = "C01"
 LEVEL = "proof"
-COQ_DIRS = ["C01"]
-COQ_TARGETS = ["Gen/GaussCirc.vo", "Base/GaussTac.vo", "Base/PhaseSpace.vo", "C01/GaussPhaseSpace.vo"]
+COQ_DIRS = ["C01", "FockAxes"]
+COQ_TARGETS = ["Gen/GaussCirc.vo", "Base/GaussTac.vo", "Base/PhaseSpace.vo", "C01/GaussPhaseSpace.vo"] + list(fa.COQ_TARGETS)
 PROPERTIES_FILE = "Properties/C01.v"
+EXTRA_PROPERTIES_FILES = [fa.PROPERTIES_FILE]
 ALLOWED_AXIOMS = set()
 TRANSLATORS = [gc.translate_gausscirc]
 RULE = ("(a) generated-function and read-out correspondence (GaussianModes methods, scovmatxp/smeanxp) at binary64; (b) differential search: random "
@@ -199,6 +201,7 @@ def correspondence(ctx):
         for c in failing[:5]:
             small = {k: c[k] for k in ("method", "n", "args", "structured")}
             ctx.disagreement("corr:gausscirc:" + c["method"], "generated model of GaussianModes.%s disagrees with the implementation" % c["method"], {"check": "gm", "case": small})
+    fa.correspondence_fock_axes(ctx)
     bad = gc.correspondence_readout(ctx, ctx.budget(60, 600), tag="c01ro")
     if bad:
         ctx.disagreement("corr:readout", "model of scovmatxp/smeanxp disagrees with the implementation", {"check": "readout", "n": bad[0][0]})
@@ -232,6 +235,8 @@ def search(ctx):
         if it % 3 == 2:
             # histories in which modes are created and deleted along the way
             spec = sfgen.random_history_spec(rng, GNAMES, max_total=4)
+            # allocate / delete modes on an already correlated state with complex coherences
+            spec["cmds"] = sfgen.entangling_prefix(rng, spec["n"]) + spec["cmds"]
         else:
             spec = {"n": n, "cmds": [sfgen.random_cmd(rng, n, GNAMES, dagger_prob=0.2) for _ in range(rng.randint(1, 7))]}
         data = {"check": "gbr", "spec": spec}
@@ -334,6 +339,8 @@ def shrink(spec, pred):
 
 def replay(ctx, data):
     d = data["data"]
+    if d.get("check") == "fock-axes":
+        return fa.replay_fock_axes(ctx, data)
     spec = d.get("spec")
     if d.get("check") == "gbr":
         r = any_diff(spec)
